@@ -19,7 +19,7 @@ PID = "C12"
 LEVEL = "model_checking"
 RULE = ("file family = {3 configurations} x event sequences of length n<=6 with unequal row counts; for each file: slice_range 1..n+1, "
         "all indices -n..n-1 (+ both out-of-range ones), all slices 0<=start<stop<=n in every negative/None spelling x step 1..3 x "
-        "reader chunk size {None,2}, all 2^(n-1) append-session splits x modes {a, r+}, FileGenerator over ordered lists of 1-2 files x "
+        "reader chunk size {None,2}, all 2^(n-1) append-session splits x {mode a, mode r+, mode a with the file read through between sessions}, FileGenerator over ordered lists of 1-2 files x "
         "slice_range 1..5; every sequence of <= 2 (thorough 3) access operations out of 8 (index, full / abandoned iteration, slices, len) on "
         "one open File x reader chunk size {None,2}, with the event objects handed out observed again at the end; states = distinct access paths evaluated, transitions = events read; distinct_nontrivial = access paths "
         "returning >= 1 event")
@@ -51,8 +51,10 @@ def cases(tier, seed):
     return out
 
 
-def _write(path, config, seq, sessions=None, mode="a"):
-    """Write EVENTS[seq] to path; `sessions` = set of positions after which the file is closed and re-opened for appending."""
+def _write(path, config, seq, sessions=None, mode="a", read_between=False):
+    """Write EVENTS[seq] to path; `sessions` = set of positions after which the file is closed and re-opened for appending;
+    with `read_between` the file is read through (by this same process) between two sessions."""
+    from pyrex.io import File
     drv = hm.Driver(path, config, 2)
     try:
         for k, i in enumerate(seq):
@@ -61,6 +63,9 @@ def _write(path, config, seq, sessions=None, mode="a"):
                 raise src.HarnessError("valid add rejected")
             if sessions and k in sessions:
                 drv.close()
+                if read_between:
+                    with File(path, "r") as f:
+                        _obs_list(f)
                 drv.open(mode)
     finally:
         drv.close()
@@ -219,17 +224,17 @@ def evaluate(case):
                             raise
                         fail("access-exception", "%s raised %s" % (label0, src.short_tb(e)), ops=list(q))
         elif case["kind"] == "append":
-            for mode in ("a", "r+"):
+            for mode, rb in (("a", False), ("r+", False), ("a", True)):
                 for split in itertools.product((0, 1), repeat=n - 1):
                     if not any(split):
                         continue
                     sessions = {k for k, s in enumerate(split) if s}
-                    p2 = os.path.join(tmp, "app.h5")
-                    if os.path.exists(p2):
-                        os.remove(p2)
-                    label = "sessions closed after adds %s, re-opened with mode %r" % (sorted(sessions), mode)
+                    # a name never used before in this process (whatever a reader may remember about a path is then fresh)
+                    p2 = os.path.join(tmp, "app_%s_%d_%s.h5" % (mode.replace("+", "p"), rb, "".join(map(str, split))))
+                    label = "sessions closed after adds %s, re-opened with mode %r%s" % (
+                        sorted(sessions), mode, " (file read through between sessions)" if rb else "")
                     try:
-                        _write(p2, config, seq, sessions, mode)
+                        _write(p2, config, seq, sessions, mode, rb)
                         with File(p2, "r") as f:
                             got = _obs_list(f)
                             thrown = f.total_events_thrown
@@ -248,6 +253,7 @@ def evaluate(case):
                         fail("append-thrown", "%s: total_events_thrown %r, single session %r" % (label, thrown, thrown_ref))
                     for chk, msg in hm.check_index_table(p2):
                         fail(chk, "%s: %s" % (label, msg))
+                    os.remove(p2)
     return {"n": trans, "nontrivial": nontriv, "fails": fails, "states": states, "transitions": trans,
             "sample": {"family": case["family"], "seq": case.get("seq"), "kind": case["kind"]}}
 
